@@ -19,6 +19,7 @@ import (
 	"strings"
 	"sync"
 
+	"github.com/AliceO2Group/Control/apricot/cacheproxy"
 	"github.com/AliceO2Group/Control/apricot/local"
 )
 
@@ -39,12 +40,26 @@ func newTaggedService(addr, tag string) (*local.Service, error) {
 	return local.NewService("consul://" + addr)
 }
 
-type inprocCaller struct{ svc *local.Service }
+type runNumberer interface {
+	NewRunNumber() (uint32, error)
+}
 
-func newInprocCaller(addr, tag string) (caller, error) {
+type inprocCaller struct{ svc runNumberer }
+
+// newInprocCaller: a core instance on consul://addr. With proxy, the service is
+// wrapped the way apricot.newService does it with configCache=true: ONE
+// cacheproxy.Service in front of it, shared by every caller of the instance.
+func newInprocCaller(addr, tag string, proxy bool) (caller, error) {
 	svc, err := newTaggedService(addr, tag)
 	if err != nil {
 		return nil, err
+	}
+	if proxy {
+		ps, err := cacheproxy.NewService(svc)
+		if err != nil {
+			return nil, fmt.Errorf("cacheproxy.NewService: %w", err)
+		}
+		return &inprocCaller{svc: ps}, nil
 	}
 	return &inprocCaller{svc: svc}, nil
 }
